@@ -144,10 +144,12 @@ def canonV (p : Param) : PVal → PVal
   | v => v
 
 /-- what the round trip needs of a supplied value: a `bin` value has the declared width (the writer
-    takes the width from the value), a value with an expectation meets it (the encoder does not check) -/
+    takes the width from the value), a value with an expectation meets it (the encoder does not check),
+    the place of the template data is held by `PVal.data` (the encoder ignores what is there) -/
 def valOK (p : Param) (v : PVal) : Bool :=
   (match v with | .bin bs => p.nbits == 0 || bs.length == p.nbits | _ => true) &&
-  (match p.expected with | none => true | some e => decide (canonV p v = .bytes e))
+  (match p.expected with | none => true | some e => decide (canonV p v = .bytes e)) &&
+  (p.ty != .templateData || decide (v = .data))
 
 def valsOK : List Param → List PVal → Bool
   | p :: ps, v :: vs => valOK p v && valsOK ps vs
@@ -198,7 +200,7 @@ theorem decValue_fixed {α : Type} (dc : DataCoder α) {p : Param} {v : PVal} {p
     subst hx
     have hl : bs.length = p.nbits := by
       simp only [valOK, Bool.and_eq_true, Bool.or_eq_true, beq_iff_eq] at hv
-      rcases hv.1 with h0 | h0
+      rcases hv.1.1 with h0 | h0
       · exact absurd h0 hn
       · exact h0
     refine ⟨?_, hl⟩
@@ -217,7 +219,7 @@ theorem decValue_fixed {α : Type} (dc : DataCoder α) {p : Param} {v : PVal} {p
 theorem checkExpected_ok {p : Param} {v : PVal} (hv : valOK p v = true) : checkExpected p (canonV p v) = .ok () := by
   unfold checkExpected
   simp only [valOK, Bool.and_eq_true] at hv
-  have h2 := hv.2
+  have h2 := hv.1.2
   split
   · rfl
   · rename_i e he
@@ -416,14 +418,13 @@ variable (X : Prop)
     cut to the width, a zero-width `bin` extended by the zero padding of its section, a descriptor list
     possibly extended by null descriptors read from the zero fill of an over-declared section. -/
 def PRel (n : String) (nb : Nat) (v v' : PVal) : Prop :=
-  v' = .data ∨          -- the template-data parameter (whatever was supplied in its place)
   match v with
   | .int x => (n = "section_length" ∨ n = "length") ∨ v' = .int x
   | .bool b => v' = .bool b
   | .bin bs => ∃ k, v' = .bin (bs ++ zeros k) ∧ (nb ≠ 0 → k = 0)
   | .bytes b => nb ≠ 0 → v' = .bytes (padBytes b (nb / 8))
   | .descs ids => ∃ k, v' = .descs (ids ++ List.replicate k 0) ∧ (X → k = 0)
-  | .data => False
+  | .data => v' = .data
 
 /-- parameter list / supplied values / decoded values; the second conjunct: what the section loop
     itself consults (`edition`, `is_section<k>_presents`) is decoded exactly -/
@@ -451,12 +452,12 @@ variable {X}
 
 theorem PRel_canon (p : Param) (v : PVal) : PRel X p.name p.nbits v (canonV p v) := by
   cases v with
-  | int x => exact Or.inr (Or.inr rfl)
-  | bool b => exact Or.inr rfl
-  | bin bs => exact Or.inr ⟨0, by simp [zeros, canonV], fun _ => rfl⟩
-  | bytes b => exact Or.inr fun _ => rfl
-  | descs ids => exact Or.inr ⟨0, by simp [canonV], fun _ => rfl⟩
-  | data => exact Or.inl rfl
+  | int x => exact Or.inr rfl
+  | bool b => exact rfl
+  | bin bs => exact ⟨0, by simp [zeros, canonV], fun _ => rfl⟩
+  | bytes b => exact fun _ => rfl
+  | descs ids => exact ⟨0, by simp [canonV], fun _ => rfl⟩
+  | data => exact rfl
 
 theorem RegRel_refl_init : RegRel X Registry.init Registry.init := by
   simp only [Registry.init, RegRel, ERel, PRel, and_true, true_and]
@@ -484,6 +485,30 @@ theorem RegRel_get {rE rD : Registry} (h : RegRel X rE rD) (n : String) (hn : is
       · have : (n == k) = false := by simpa using hk
         simp only [this]
         exact ih h6
+
+/-- looking a property up in the decoder's registry: the same entry as in the encoder's, the value `PRel`-related -/
+theorem RegRel_lookup {rE rD : Registry} (h : RegRel X rE rD) (n : String) (e : PropEntry) (he : rE.get? n = some e) :
+    ∃ e', rD.get? n = some e' ∧ e'.nbits = e.nbits ∧ e'.pos = e.pos ∧ PRel X n e.nbits e.val e'.val := by
+  induction rE generalizing rD with
+  | nil => simp [Registry.get?, List.lookup] at he
+  | cons c r ih =>
+    cases rD with
+    | nil => simp [RegRel] at h
+    | cons c' r' =>
+      obtain ⟨⟨h1, h2, h3, h4, _⟩, h6⟩ := h
+      obtain ⟨k, ev⟩ := c
+      obtain ⟨k', ev'⟩ := c'
+      simp only at h1 h2 h3 h4
+      subst h1
+      simp only [Registry.get?, List.lookup] at he ⊢
+      by_cases hk : n = k
+      · subst hk
+        simp only [beq_self_eq_true, Option.some.injEq] at he ⊢
+        subst he
+        exact ⟨ev', rfl, h2.symm, h3.symm, h4⟩
+      · have : (n == k) = false := by simpa using hk
+        simp only [this] at he ⊢
+        exact ih h6 he
 
 theorem RegRel_editionKey {rE rD : Registry} (h : RegRel X rE rD) : rD.editionKey = rE.editionKey := by
   have := RegRel_get h "edition" isCtrl_edition
@@ -593,7 +618,7 @@ theorem zeros_split (a b : Nat) (h : a ≤ b) : zeros b = zeros a ++ zeros (b - 
 
 /-- the zero-width parameter: reads what the encoder wrote for it and possibly some of the zero padding -/
 theorem decValue_zero {α : Type} (dc : DataCoder α) (a : α) {p : Param} {v : PVal} {payload w y : Bits}
-    (hw : p.widthOK = true) (hn : p.nbits = 0) (h : encParam w p v payload = .ok (w ++ y))
+    (hw : p.widthOK = true) (hn : p.nbits = 0) (hv : valOK p v = true) (h : encParam w p v payload = .ok (w ++ y))
     (st : DecSt α) (H z : Nat) (hsl : secLen st.acc = .ok H) (hH : 8 * H = st.used + y.length + z)
     (hal : p.ty = .descriptors → st.used % 8 = 0) (hX : X → z < 16)
     (hdc : p.ty = .templateData → ∀ x, dc.dec st.reg (payload ++ x) = .ok (a, x)) :
@@ -611,16 +636,20 @@ theorem decValue_zero {α : Type} (dc : DataCoder α) (a : α) {p : Param} {v : 
     have hu := hal hty
     have hcount : (H - st.used / 8) / 2 = ids.length + z / 16 := by omega
     refine ⟨.descs (ids ++ List.replicate (z / 16) 0), y ++ zeros (16 * (z / 16)), z - 16 * (z / 16), none,
-      by omega, by simp only [List.length_append, zeros_length]; omega, Or.inr ⟨z / 16, rfl, fun hx => by have := hX hx; omega⟩, (by simp [hty]),
+      by omega, by simp only [List.length_append, zeros_length]; omega, ⟨z / 16, rfl, fun hx => by have := hX hx; omega⟩, (by simp [hty]),
       (by simp [hty]), fun suf => ⟨?_, ?_⟩⟩
     · rw [zeros_split (16 * (z / 16)) z (by omega)]; simp only [List.append_assoc]
     · simp only [decValue, hty, R.bind, hsl, R.lift, R.pure, R.map, hcount, List.append_assoc,
         readDescs_enc h (z / 16) (zeros (z - 16 * (z / 16)) ++ suf)]
   · -- template data
-    rename_i hty
+    rename_i vx _ _ hty
     have hy : payload = y := List.append_cancel_left (Except.ok.inj h)
     subst hy
-    refine ⟨.data, payload, z, some a, Nat.le_refl _, by omega, Or.inl rfl, (by simp [hty]), (by simp [hty]),
+    have hvd : vx = PVal.data := by
+      simp only [valOK, Bool.and_eq_true, hty, bne_self_eq_false, Bool.false_or, decide_eq_true_eq] at hv
+      exact hv.2
+    subst hvd
+    refine ⟨.data, payload, z, some a, Nat.le_refl _, by omega, rfl, (by simp [hty]), (by simp [hty]),
       fun suf => ⟨rfl, ?_⟩⟩
     simp only [decValue, hty, R.map, R.bind, hdc hty, R.pure]
   · rename_i i hty
@@ -641,7 +670,7 @@ theorem decValue_zero {α : Type} (dc : DataCoder α) (a : α) {p : Param} {v : 
     have hr : ∀ suf, readBits (H * 8 - st.used) ((bs ++ zeros z) ++ ([] ++ suf)) = .ok (bs ++ zeros z, [] ++ suf) :=
       fun suf => readBits_append_of_length _ _ _ (by simp only [List.length_append, zeros_length]; omega)
     refine ⟨.bin (bs ++ zeros z), bs ++ zeros z, 0, none, Nat.zero_le _,
-      by simp only [List.length_append, zeros_length]; omega, Or.inr ⟨z, rfl, fun h0 => absurd hn h0⟩,
+      by simp only [List.length_append, zeros_length]; omega, ⟨z, rfl, fun h0 => absurd hn h0⟩,
       (by simp [hty]), (by simp [hty]), fun suf => ⟨by simp [zeros], ?_⟩⟩
     have hz0 : zeros 0 = [] := rfl
     simp only [decValue, hty, hn, if_true, reduceCtorEq, if_false, R.bind, hsl, R.lift, R.pure, hlt, readTyped, R.map,
@@ -659,7 +688,7 @@ theorem decValue_zero {α : Type} (dc : DataCoder α) (a : α) {p : Param} {v : 
         = .ok (zeros (8 * (z / 8)), zeros (z - 8 * (z / 8)) ++ suf) :=
       fun suf => readBits_append_of_length _ _ _ (zeros_length _)
     refine ⟨.bytes (bitsToBytes (zeros (8 * (z / 8)))), zeros (8 * (z / 8)), z - 8 * (z / 8), none, by omega,
-      by simp only [zeros_length, List.length_nil]; omega, Or.inr fun h0 => absurd hn h0,
+      by simp only [zeros_length, List.length_nil]; omega, fun h0 => absurd hn h0,
       (by simp [hty]), (by simp [hty]), fun suf => ⟨?_, ?_⟩⟩
     · rw [zeros_split (8 * (z / 8)) z (by omega)]; simp only [List.nil_append, List.append_assoc]
     · simp only [decValue, hty, hn, if_true, reduceCtorEq, if_false, R.bind, hsl, R.lift, R.pure, hlt, readTyped, R.map,
@@ -797,7 +826,7 @@ theorem decParams_tail {α : Type} (dc : DataCoder α) (a : α) (payload : Bits)
           simp only [beforeData, List.takeWhile, hty, bne_self_eq_false, register]
           exact hreg
         obtain ⟨v', c, z', dat, hz', hcl, hrel, hnty, hdat, hrun⟩ :=
-          decValue_zero dc a hw hn h1 st H z hsl hH (fun hty => by rcases hal.1 with h0 | h0; exact absurd hty h0; exact h0) hX hdc'
+          decValue_zero dc a hw hn hvs.1 h1 st H z hsl hH (fun hty => by rcases hal.1 with h0 | h0; exact absurd hty h0; exact h0) hX hdc'
         refine ⟨[v'], z', dat, hz', ⟨hrel, fun hp hc => ?_, trivial⟩, by simp [hdat, hasData], fun suf => ?_⟩
         · rcases hctrl hp hc with h0 | h0 | h0
           · exact absurd h0 hnty.1
@@ -959,7 +988,7 @@ theorem decSection_len {α : Type} (dc : DataCoder α) (a : α) {cfg : EncCfg} {
   have henc : encParam [] p (.int (Int.ofNat H)) payload = .ok ([] ++ toBits 24 H) := by
     simp only [encParam, hty, hnb]
     exact writeUInt_ofNat [] 24 H (by decide) hH24
-  have hvH : valOK p (.int (Int.ofNat H)) = true := by simp [valOK, hexp]
+  have hvH : valOK p (.int (Int.ofNat H)) = true := by simp [valOK, hexp, hty]
   have hfix := fun st suf => (decValue_fixed dc (st := st) (suf := suf) hwp hn0 hvH henc).1
   have hcv : canonV p (.int (Int.ofNat H)) = .int (Int.ofNat H) := rfl
   -- state after the length field
@@ -972,7 +1001,7 @@ theorem decSection_len {α : Type} (dc : DataCoder α) (a : α) {cfg : EncCfg} {
     show RegRel X (if p.asProperty then _ else _) (if p.asProperty then _ else _)
     by_cases hpa : p.asProperty = true
     · simp only [hpa, if_true]
-      refine ⟨⟨rfl, rfl, rfl, Or.inr (Or.inl (Or.inl hname)), fun hc => ?_⟩, hreg⟩
+      refine ⟨⟨rfl, rfl, rfl, Or.inl (Or.inl hname), fun hc => ?_⟩, hreg⟩
       simp only at hc
       rw [hname] at hc
       exact absurd hc (by decide)
@@ -1002,7 +1031,7 @@ theorem decSection_len {α : Type} (dc : DataCoder α) (a : α) {cfg : EncCfg} {
       rw [hp, hvs', hbd]; exact hr))
   refine ⟨.int (Int.ofNat H) :: vsD, by
     rw [hp, hvs']
-    exact ⟨Or.inr (Or.inl (Or.inl hname)), fun _ hc => absurd (hname ▸ hc) (by decide), hrel⟩, fun suf => ?_⟩
+    exact ⟨Or.inl (Or.inl hname), fun _ hc => absurd (hname ▸ hc) (by decide), hrel⟩, fun suf => ?_⟩
   have hc := counted_append (hfix st0 (y ++ (zeros z ++ suf)))
   have hce : checkExpected p (.int (Int.ofNat H)) = .ok () := by simp [checkExpected, hexp]
   subst hdat
@@ -1365,7 +1394,7 @@ theorem encodeBits_rt {α : Type} (dc : DataCoder α) (a : α) {L : Layouts} {cf
     have hvs0' : valsOK e0.layout.params (.bytes b0 :: .int (Int.ofNat T) :: rest0) = true := by
       rw [hp]
       simp only [valsOK, Bool.and_eq_true]
-      exact ⟨hvs0.1, by simp [valOK, hexp1], hvs0.2.2⟩
+      exact ⟨hvs0.1, by simp [valOK, hexp1, ht1], hvs0.2.2⟩
     obtain ⟨x0', hx0e, hx0'⟩ := encParams_sh (hrelP T hT)
     have hx0'' : x0' = bytesToBits (padBytes b0 4) ++ toBits 24 T ++ y := by
       have := List.append_cancel_left hx0e; exact this.symm
@@ -1375,7 +1404,7 @@ theorem encodeBits_rt {α : Type} (dc : DataCoder α) (a : α) {L : Layouts} {cf
         (List.zipWith canonV e0.layout.params (.bytes b0 :: .int (Int.ofNat T) :: rest0)) := by
       rw [hp] at hrelT ⊢
       obtain ⟨a0, c0, _, _, r0⟩ := hrelT
-      exact ⟨a0, c0, Or.inr (Or.inl (Or.inr hname1)), fun _ hc => absurd (hname1 ▸ hc) (by decide), r0⟩
+      exact ⟨a0, c0, Or.inl (Or.inr hname1), fun _ hc => absurd (hname1 ▸ hc) (by decide), r0⟩
     generalize List.zipWith canonV e0.layout.params (.bytes b0 :: .int (Int.ofNat T) :: rest0) = vsD0 at hrelT' hrunT
     generalize hX0 : bytesToBits (padBytes b0 4) ++ toBits 24 T ++ y = X0 at hrunT hw2e
     have hregD1 : RegRel X reg1 (register Registry.init 0 0 e0.layout.params vsD0) := by
